@@ -242,6 +242,11 @@ struct Property {
     std::function<Case(const Case&, const std::function<bool(const Case&)>&)> minimise;
     double share = 1.0; // fraction of --cases
     int max_size = 100;
+    // confirmation of a failure before it counts: re-run the saved case up to confirm_runs times, it is confirmed once
+    // confirm_min of them failed again. Deterministic properties use 3/3. A property whose cases run on real threads (C19) has a
+    // sound oracle but an outcome that depends on the OS schedule: there one further failure among many re-runs confirms.
+    int confirm_runs = 3, confirm_min = 3;
+    bool no_shrink = false; // schedule-dependent outcomes cannot be shrunk meaningfully: keep the case that failed
 };
 
 namespace detail {
@@ -296,7 +301,7 @@ bool maybe_replay(const Property<Case>& p) {
     std::string body = all.substr(all.find('\n') + 1);
     int fails = 0;
     Result last;
-    for (int i = 0; i < 3; ++i) {
+    for (int i = 0; i < p.confirm_runs && fails < p.confirm_min; ++i) {
         Result r = replay_text(p, body);
         if (!r.ok) {
             ++fails;
@@ -304,7 +309,8 @@ bool maybe_replay(const Property<Case>& p) {
         }
     }
     ++c.evaluations;
-    if (fails == 3) {
+    const bool confirmed = fails >= p.confirm_min;
+    if (confirmed) {
         if (c.known.count(last.sig)) {
             auto& k = c.known_hits[last.sig];
             ++k.first;
@@ -313,9 +319,9 @@ bool maybe_replay(const Property<Case>& p) {
             c.violations.push_back({p.name, last.sig, last.why, c.replay, true});
         }
     } else if (fails > 0) {
-        add_note("replay of " + c.replay + " is flaky (" + std::to_string(fails) + "/3 failures): " + last.why);
+        add_note("replay of " + c.replay + " is flaky (" + std::to_string(fails) + "/" + std::to_string(p.confirm_runs) + " failures): " + last.why);
     }
-    c.subchecks["replay:" + c.replay] = fails == 3 ? ("FAIL " + last.sig) : "pass";
+    c.subchecks["replay:" + c.replay] = confirmed ? ("FAIL " + last.sig) : "pass";
     return true;
 }
 
@@ -332,6 +338,7 @@ void run(Property<Case>& p) {
     params.maxSuccess = (int)n;
     params.maxSize = p.max_size;
     params.maxDiscardRatio = 20;
+    params.disableShrinking = p.no_shrink;
     rc::detail::TestMetadata md;
     md.id = p.name;
     md.description = p.name;
@@ -410,15 +417,16 @@ void run(Property<Case>& p) {
                                  }() +
                                  "\n");
     int fails = 0;
-    for (int i = 0; i < 3; ++i) {
+    for (int i = 0; i < p.confirm_runs && fails < p.confirm_min; ++i) {
         Result r = replay_text(p, body);
         if (!r.ok)
             ++fails;
     }
-    c.violations.push_back({p.name, last_res.sig, last_res.why, path, fails == 3});
+    c.violations.push_back({p.name, last_res.sig, last_res.why, path, fails >= p.confirm_min});
     c.subchecks[p.name] = "FAIL " + last_res.sig;
-    if (fails != 3)
-        add_note("failure of " + p.name + " did not reproduce deterministically (" + std::to_string(fails) + "/3)");
+    if (fails < p.confirm_min)
+        add_note("failure of " + p.name + " did not reproduce (" + std::to_string(fails) + " of " + std::to_string(p.confirm_runs) + " re-runs, " +
+                 std::to_string(p.confirm_min) + " needed)");
 }
 
 // ---- enumerated sub-checks (generator replaced by `for`) ---------------------------------------------------
